@@ -93,7 +93,7 @@ def _from_soap(in_envelope_xml, xmlids=None, **kwargs):
 
 def _parse_xml_string(xml_string, parser, charset=None):
     xml_string = iter(xml_string)
-    chunk = next(xml_string)
+    chunk = next(xml_string, b'')
     if isinstance(chunk, six.binary_type):
         string = b''.join(chain( (chunk,), xml_string ))
     else:
